@@ -255,12 +255,16 @@ def check(case):
                 s = np.asarray(s, dtype=float)
                 e, nw = midpoint_widths(g)
                 chi = 0.0
+                exact = True
                 for i in range(len(own)):
                     v, _, tot, _, _ = overlap_mean(g - nw / 2, g + nw / 2, s, own[i] - oww[i] / 2, own[i] + oww[i] / 2)
                     if tot <= 0:
                         return None
                     chi += ((oval[i] - float(v)) / oerr[i]) ** 2
-                if chi == 0.0:
+                    exact = exact and abs(oval[i] - float(v)) <= 1e-12 * abs(oval[i])
+                # an exact fit up to rounding: whether chi^2 is exactly 0 (-> NaN on purpose) or 1e-30 depends on the
+                # order of the floating-point sums, so it is excluded like chi^2 == 0
+                if chi == 0.0 or exact:
                     out.cls('chi2-zero-excluded')      # the code maps an exact fit to NaN on purpose
                     return None
                 return -float(np.sum(np.log(oerr * math.sqrt(2 * math.pi)))) - 0.5 * chi
